@@ -137,11 +137,30 @@ def is_unknown_atrule_prelude(toks):
 # ----------------------------------------------------------------------------------------
 
 
+_SILENT = {'diff': None}
+
+
 def parse_nc(text):
     with guard.collect_log() as log:
         sheet = cssutils.parseString(text)
         p = P.proj(sheet, comments=False)
+    # the same parse with the error log silenced (a configuration like any other: what is dropped may not depend on whether
+    # anybody listens)
+    guard._LOGGER.setLevel(60)
+    try:
+        p2 = P.proj(cssutils.parseString(text), comments=False)
+    finally:
+        guard._LOGGER.setLevel(10)
+    _SILENT['diff'] = None if p2 == p else (p, p2)
     return p, len(log.records)
+
+
+def log_dependence(res, clause, case, kind):
+    if _SILENT['diff'] is not None:
+        a, b = _SILENT['diff']
+        d = P.diff_path(a, b)
+        res.violation(clause, f'result-depends-on-the-log-level|{kind}', dict(case, log_levels=['DEBUG', 'silenced']),
+                      {'at': list(d[0]), 'log at DEBUG': d[1]}, {'log silenced': d[2]}, size=len(case.get('text', '')))
 
 
 def strip_unknown(p):
@@ -249,6 +268,7 @@ def check_damage(res, bi, pi, kind, toks, record=True):
             res.violation('C04.contained', f'{guard.crash_site(e)}|{kind}', case, 'a DOM', repr(e)[:300], size=len(toks) * 1000 + len(text))
         return 'exc'
     if record:
+        log_dependence(res, 'C04.contained', case, kind)
         if nlog:
             res.nontrivial += 1
             res.counters['logged'] += 1
@@ -388,6 +408,7 @@ def run_truncation(res, ti, which):
         except Exception as e:
             res.violation('C04.truncation', guard.crash_site(e), case, 'a DOM', repr(e)[:300], size=cut)
             continue
+        log_dependence(res, 'C04.truncation', case, 'truncation')
         got = strip_unknown_top(got)
         # complete rules: those whose end mark is <= cut
         n_complete = sum(1 for off in rule_ends if off <= cut)
@@ -542,6 +563,7 @@ def _misplaced(res, bi, pi, m):
     except Exception as e:
         res.violation('C04.misplaced', guard.crash_site(e), case, 'a DOM', repr(e)[:300])
         return
+    log_dependence(res, 'C04.misplaced', case, 'misplaced')
     if nlog:
         res.nontrivial += 1
         res.counters['logged'] += 1
